@@ -10,6 +10,7 @@
 #include "common/runner.hpp"
 #include "common/graphs.hpp"
 #include "common/bgl.hpp"
+#include "common/bigref.hpp"
 #include "common/explore.hpp"
 #include "common/variants.hpp"
 
@@ -47,6 +48,17 @@ static Verdict run_and_check(int var, long k, B &b, const vg::EdgeList &el, cons
     if (vptr::arena_exhausted) { fprintf(stderr, "HARNESS-ERROR pointer-order arena exhausted\n"); exit(2); }
 #endif
     if (!v.ok) return v;
+    if (el.m() > 62) {
+        // graphs beyond the 64-bit edge masks (--big): dynamic-bitset validator; oracle = the output is a cycle basis of the
+        // caller's graph and the returned value is its weight (no optimum is computed at this size)
+        std::vector<std::vector<int>> ids;
+        for (auto &c : cycles) { std::vector<int> x; for (auto &e : c) { auto it = b.by_prop.find(e.get_property()); x.push_back(it == b.by_prop.end() ? -1 : it->second); } ids.push_back(x); }
+        auto big = vbig::check_cycles(el, w, ids, dim);
+        if (verbose) printf("returned=%s emitted_total=%s count=%zu %s\n", vg::fmt_w(ret).c_str(), vg::fmt_w(big.total).c_str(), ids.size(), big.ok ? "valid" : big.msg.c_str());
+        if (!big.ok) { v.ok = false; v.cls = big.cls; v.msg = big.msg; return v; }
+        if (ret != big.total) { v.ok = false; v.cls = "return-mismatch"; v.msg = "returned " + vg::fmt_w(ret) + " but emitted cycles weigh " + vg::fmt_w(big.total); }
+        return v;
+    }
     auto chk = vb::check_cycle_set<W>(b, w, cycles, dim);
     if (verbose) printf("returned=%s emitted_total=%s weights=%s count=%zu %s\n", vg::fmt_w(ret).c_str(), vg::fmt_w(chk.total).c_str(), vb::vec_str(chk.weights).c_str(), chk.masks.size(), chk.ok ? "valid" : chk.msg.c_str());
     if (!chk.ok) { v.ok = false; v.cls = chk.cls; v.msg = chk.msg; return v; }
@@ -69,7 +81,7 @@ static std::string cs_of(const vg::EdgeList &el, const std::vector<double> &w, i
 static void explore_input(vr::Runner &R, const Cfg &cfg, const vg::EdgeList &el, const std::vector<double> &w,
         const std::vector<uint64_t> &cyc, int dim, B &b) {
     b.set_weights(w);
-    vg::RefResult<double> ref = vg::reference_mcb<double>(cyc, w, dim); std::sort(ref.weights.begin(), ref.weights.end());
+    vg::RefResult<double> ref; if (el.m() <= 62) { ref = vg::reference_mcb<double>(cyc, w, dim); std::sort(ref.weights.begin(), ref.weights.end()); }
     std::vector<long> ks = cfg.ks.empty() ? std::vector<long>{0} : cfg.ks;
     for (long k : ks) for (int var : cfg.variants) {
         const char *site = k > 0 ? vv::approx_name(var) : vv::variant_name(var);
@@ -161,7 +173,7 @@ int main(int argc, char **argv) {
         int var = vv::variant_by_short(pc.get("variant"));
         long k = pc.get("k").empty() ? 0 : atol(pc.get("k").c_str());
         int dim = vg::cycle_space_dim(pc.g);
-        auto cyc = vg::all_simple_cycles(pc.g);
+        std::vector<uint64_t> cyc; if (pc.g.m() <= 62) cyc = vg::all_simple_cycles(pc.g);
         auto ref = vg::reference_mcb<double>(cyc, pc.w, dim); std::sort(ref.weights.begin(), ref.weights.end());
         B b(pc.g, pc.w);
         std::vector<int> seq; for (auto &t : vr::split(pc.get("choices"), '.')) if (!t.empty() && t != "threads" && t.back() != '+') seq.push_back(atoi(t.c_str()));
@@ -185,7 +197,7 @@ int main(int argc, char **argv) {
     uint64_t wchunks = (uint64_t) A.geti("wchunks", 1);      // a unit is (graph, residue class of weightings)
     uint64_t total_units = ngraphs * wchunks;
     uint64_t seed = (uint64_t) A.geti("seed", 0);
-    int min_dim = (int) A.geti("min-dim", 0), min_m = (int) A.geti("min-m", 0), max_m = (int) A.geti("max-m", 62);
+    int min_dim = (int) A.geti("min-dim", 0), min_m = (int) A.geti("min-m", 0), max_m = (int) A.geti("max-m", A.has("big") ? (1 << 30) : 62);
     int orient_mode = (int) A.geti("orient", 0);
     vg::plus_heavy_k2() = A.has("plus-heavy-k2");
     vg::edge_order_mode() = (int) A.geti("eorder", 0);
@@ -199,7 +211,7 @@ int main(int argc, char **argv) {
         vg::EdgeList el = unit_graph(u);
         int dim = vg::cycle_space_dim(el);
         if (dim < min_dim || el.m() < min_m || el.m() > max_m) return;
-        auto cyc = vg::all_simple_cycles(el);
+        std::vector<uint64_t> cyc; if (el.m() <= 62) cyc = vg::all_simple_cycles(el);
         uint64_t nw = vg::num_weightings(alpha, el.m());
         std::vector<double> w; vg::weighting(alpha, el.m(), 0, w);
         B b(el, w);
